@@ -75,6 +75,9 @@ def mutate(frame, info, mut):
     data = mr[nd:]
     if t == "status":
         ext = mut.get("ext", [])
+        if mut.get("service") is not None:
+            # the reply names another service than the one that was asked (or none: reply bit cleared)
+            svc = (svc & 0x7F) if mut["service"] == "clear7" else mut["service"]
         new = bytes([svc, 0, mut["status"], len(ext)]) + b"".join(struct.pack("<H", w) for w in ext)
         if mut.get("keep_data"):
             new += data
@@ -421,6 +424,8 @@ def judge(sc, env, kind, fault, state, outcome, res, hits, ref):
         return
     if state["delivered"] is None or state["info"].get("inapplicable"):
         return      # the fault position was not reached: nothing to judge
+    if mt == "status" and mut.get("service") is not None:
+        return      # a reply to a service that was not asked: only robustness (judged above) is demanded
     delivered = state["delivered"]
     expected_cmd = {"register": 0x65, "list_identity": 0x63, "discover": 0x63, "generic_u": 0x6F, "generic_us": 0x6F,
                     "plc_info": 0x6F}.get(kind, 0x70)
@@ -652,6 +657,13 @@ def directed(tier, prop="C13"):
                     sc = base_scenario(kind, seed)
                     sc["fault"] = {"nth": nth, "mut": {"type": "status", "status": st, "ext": [], "keep_data": True,
                                                        "encap_status": est}}
+                    out.append(sc)
+            # a reply whose service byte is not the reply to what was asked, with a success / partial / error status
+            for svc_ in ("clear7", 0x00, 0x7F, 0xCC, 0xD2, 0xFF):
+                for st in (0, 6, 5):
+                    sc = base_scenario(kind, seed)
+                    sc["fault"] = {"nth": nth, "mut": {"type": "status", "status": st, "ext": [], "keep_data": st in (0, 6),
+                                                       "service": svc_}}
                     out.append(sc)
             # an error reply cut short at every byte around its status words
             for st, ext in ((0x05, []), (0xFF, [0x2105]), (0x1F, [1, 2])):
